@@ -115,6 +115,7 @@ type World struct {
 	Dead       string            // non-empty after a panic or hang: the instance must not be used any more
 	Trace      []Step
 	apps       []*objects.Application
+	appGroup   map[string]string // application -> group its usage is tracked under (after the previous op)
 	failingAsk [2]string         // application and key of an ask sent to a failing application by the current op
 	late       map[string]func() // expired state timer callbacks that have not run yet (TIMER_STATE_EXPIRE / TIMER_STATE_LATE)
 }
@@ -880,8 +881,39 @@ func (w *World) findApp(id string) *objects.Application {
 }
 
 // absorb updates the shim model from the core's outbound messages of one step.
+// noteGroupChanges sets a context tag when the group under which the usage of an application is tracked changes while
+// the application holds allocations (a reload that adds or removes group limits changes which of the user's groups is
+// resolved for it).
+func (w *World) noteGroupChanges() {
+	if w.CC == nil || w.Dead != "" {
+		return
+	}
+	cur := map[string]string{}
+	for _, ut := range ugm.GetUserManager().GetUserTrackers() {
+		for app, g := range ut.GetResourceUsageDAOInfo().Groups {
+			cur[app] = g
+		}
+	}
+	if w.appGroup == nil {
+		w.appGroup = map[string]string{}
+	}
+	for app, g := range cur {
+		if g == "" {
+			continue
+		}
+		// the last group an application was tracked under is remembered across reloads that drop its group tracker
+		if old, ok := w.appGroup[app]; ok && old != g {
+			if a := w.findApp(app); a != nil && len(a.GetAllAllocations()) > 0 {
+				w.Mem["ctx:tracked-group-changed-with-live-allocations"] = "1"
+			}
+		}
+		w.appGroup[app] = g
+	}
+}
+
 func (w *World) absorb(st *Step) {
 	m := w.Model
+	w.noteGroupChanges()
 	w.Trace = append(w.Trace, *st)
 	for _, o := range st.Out {
 		switch o.T {
